@@ -45,6 +45,11 @@ class ConnCtx(FsmCtx):
             return None
         live = w.live_conns()
         due = w.reactor.due()
+        thread_due = [i for i, c in enumerate(due) if c.kind == "thread" and c.time <= w.now()]
+        if thread_due:
+            # a call queued with callFromThread runs in the reactor's next iteration: a whole new session
+            # cannot come up in between
+            return ["fire", thread_due[0]]
         if cfg.get("p_hfail") and w.handler_fail_in is None and rng.chance(cfg["p_hfail"]):
             return ["hfail", rng.randrange(1, 4)]
         choices = []
@@ -65,7 +70,14 @@ class ConnCtx(FsmCtx):
         choices.append(("advance", cfg["w_timer"] * 0.3))
         choices.append(("stop", cfg["w_rest"]))
         choices.append(("start", cfg["w_rest"]))
+        if w.state() == "ESTABLISHED":
+            choices.append(("rest_send", max(cfg["w_rest"], 0.5) * 2))
         kind = rng.weighted(choices)
+        if kind == "rest_send":
+            # an operator announcement: it belongs on the connection the session runs on
+            self.stats["gen:rest_send"] += 1
+            return ["rest", "POST", URL + "send/update", "ok",
+                    {"attr": {"1": 0, "2": [], "3": "10.0.0.1", "5": 100}, "nlri": ["10.%d.0.0/16" % rng.randrange(256)]}]
         if kind == "conn_ok":
             return ["conn_ok", rng.pick(pend)]
         if kind == "conn_refuse":
@@ -113,6 +125,14 @@ class ConnCtx(FsmCtx):
                     raise Violation("C12", "stale-write", "write-to-old-connection/%s" % self.abs_tok(t).split("(")[0],
                                     "%s written to connection #%d at t=%.3f while connection #%d is the newest established one"
                                     % (self.abs_tok(t), t[1], w.now(), est[-1]))
+        # (b') ... also when the old connection is already gone (the write is dropped by the transport)
+        for e in w.log[pos:]:
+            if e[2] == "write_dropped":
+                est = [c.cid for c in w.conns if c.t_established is not None]
+                if est and e[3] != est[-1]:
+                    raise Violation("C12", "stale-write", "write-to-old-connection/dropped",
+                                    "%s written to the closed connection #%d at t=%.3f while connection #%d is the newest established one"
+                                    % (rp.describe(bytes.fromhex(e[4])), e[3], w.now(), est[-1]))
         nlive = len([c for c in w.conns if c.live() and not c.closing() and not c.c.aborted])
         self.stats["max_live_%d" % min(nlive, 3)] += 1
         if nlive > 1:
@@ -240,7 +260,7 @@ class StopCtx(FsmCtx):
                 ch += [("cdone", 2)]
             if due:
                 ch += [("timer", 3)]
-            ch += [("advance", 1), ("read", 0.5), ("stop_again", 0.2)]
+            ch += [("advance", 1), ("read", 0.5), ("stop_again", 0.2), ("rest_send", 0.6)]
             kind = rng.weighted(ch)
             if kind == "conn_ok":
                 return ["conn_ok", rng.pick(pend)]
@@ -258,6 +278,13 @@ class StopCtx(FsmCtx):
                 return self.advance_op(rng)
             if kind == "read":
                 return ["rest", "GET", URL + "state", "ok"]
+            if kind == "rest_send":
+                # the operator (or a script of theirs) keeps posting: a stopped peer sends nothing
+                self.stats["gen:rest_send_while_stopped"] += 1
+                if rng.chance(0.7):
+                    return ["rest", "POST", URL + "send/update", "ok",
+                            {"attr": {"1": 0, "2": [], "3": "10.0.0.1", "5": 100}, "nlri": ["10.%d.0.0/16" % rng.randrange(256)]}]
+                return ["rest", "POST", URL + "send/route-refresh", "ok", {"afi": 1, "safi": 1, "res": 0}]
             return ["rest", "GET", URL + "manual-stop", "ok"]
         # stage 0: C01-style walk without operator stop (start while up is part of it)
         if w.state() == "ESTABLISHED" and rng.chance(0.06):
@@ -850,7 +877,9 @@ class StatsCtx(FsmCtx):
                 # a deferred (REST) write that found its connection already gone: in flight at close
                 d = self.tx_dropped.setdefault(e[3], {})
                 for f in rp.deframe(bytes.fromhex(e[4]))[0]:
-                    if not f.error:
+                    if not f.error and f.type == rp.UPDATE:
+                        # (only UPDATEs are written by a deferred call; anything else that is counted must
+                        # have been written to a connection that still existed)
                         d[STAT_KEYS[f.type]] = d.get(STAT_KEYS[f.type], 0) + 1
                         self.stats["rest_send_lost_in_flight_at_close"] += 1
             if e[2] == "rx":
